@@ -288,6 +288,37 @@ func planQuick(ck *vlib.Check, ws []*workload) []runCase {
 			}
 		}
 	}
+	// 1b: seeded draws of 2-D-grid shapes (tall / wide / large) on unified
+	// GPU classes, emulation
+	var shaped []pair
+	for _, w := range ws {
+		if len(w.Shapes2D) == 0 {
+			continue
+		}
+		for _, c := range w.classes() {
+			if !c.Timing && c.UnifiedGPU {
+				shaped = append(shaped, pair{w, c})
+			}
+		}
+	}
+	for k, i := range r.Perm(len(shaped)) {
+		if k >= 8 {
+			break
+		}
+		pr := shaped[i]
+		var ok [][]int
+		for _, p := range pr.w.Shapes2D {
+			if pr.w.Adm(p, pr.c) && pr.w.quarantine(p, pr.c) == "" {
+				ok = append(ok, p)
+			}
+		}
+		if len(ok) == 0 {
+			continue
+		}
+		cs := mkCase(pr.w, ok[r.Intn(len(ok))], pr.c, fmt.Sprintf("shape%d-%s", k, pr.w.Name), ck.Seed*1000+300+int64(k))
+		cs.Parallel = r.Chance(1, 5) && pr.w.parallelOK(pr.c.Arch)
+		cases = append(cases, cs)
+	}
 	// 2: seeded rotation of 24 (workload, class) pairs from the timing /
 	// multi-GPU / unified-memory classes
 	perm := r.Perm(len(pool))
@@ -299,8 +330,8 @@ func planQuick(ck *vlib.Check, ws []*workload) []runCase {
 			continue
 		}
 		k := len(ss)
-		if k > 2 {
-			k = 2
+		if k > 2 && pr.c.Timing {
+			k = 2 // timing: the two smallest; emulation is fast enough for any table size
 		}
 		cs := mkCase(pr.w, ss[r.Intn(k)], pr.c, fmt.Sprintf("rot%02d-%s", 24-n, pr.w.Name), ck.Seed*1000+500+int64(n))
 		cs.Parallel = r.Chance(1, 5) && pr.w.parallelOK(pr.c.Arch)
